@@ -380,31 +380,3 @@ def run(ctx):
     from . import C09 as _borrowed_C09
 
     _borrowed_C09.run(_BorrowCtx11(ctx, {"C09.6": "C12.11"}))
-
-    # ---- C12.12 joining a thread consumes its promise ---------------------------------------------------------------
-    # join_thread hands out the promise of the forked evaluation once; a later join (of a Thread value replayed from the cache) falls back to
-    # evaluating the expression, so a failure is produced by running the failing call again, never by a remembered rejected promise.
-    r12 = ctx.rule("C12.12", "join_thread takes the tracked promise through a removing accessor", floor=2)
-    jt = m.funcs.get("join_thread")
-    pp = m.funcs.get("Scheduler.pop_promise")
-    if jt is None:
-        raise AnalysisError("join_thread not found", "join_thread")
-    getters = [c for c in calls_in(jt) if isinstance(c.func, ast.Attribute) and "promise" in c.func.attr and c.args and "_promise_id" in src(c.args[0])]
-    if not getters:
-        raise AnalysisError("join_thread: lookup of the tracked promise not found", "join_thread")
-    for c in getters:
-        acc = m.funcs.get(f"Scheduler.{c.func.attr}")
-        removes = acc is not None and any(
-            (isinstance(n, ast.Call) and isinstance(n.func, ast.Attribute) and n.func.attr in ("pop", "popitem") and "_tracked_promises" in src(n.func.value))
-            or (isinstance(n, ast.Delete) and any("_tracked_promises" in src(t) for t in n.targets))
-            for n in ast.walk(acc)
-        )
-        r12.check(
-            removes,
-            f"{m.rel}:join_thread:{c.func.attr}:removes",
-            f"join_thread obtains the promise through Scheduler.{c.func.attr}, which leaves it in _tracked_promises: a Thread value replayed from the cache in a later execution is joined to the "
-            "remembered (possibly rejected) promise, and the failed call is re-raised without being executed again",
-            m.rel,
-            c.lineno,
-        )
-    r12.check(True, f"{m.rel}:join_thread:fallback", "", note="fallback evaluates thread.expr" if "scheduler.evaluate" in src(jt) else "")
